@@ -28,10 +28,13 @@ def main():
                 res[pid] = {"rc": c.returncode, "line": (line[0] if line else "")}
         finally:
             sh(["git", "-C", "/repo", "checkout", "--", "."])
-        meta["detected_by"] = {p: ("failing-input" if r["rc"] == 1 and "no-failing-input-found" not in r["line"] else
+        key = "detected_by"
+        if os.environ.get("VERIF_SEED", "1") != "1":
+            key = "detected_by_seed" + os.environ["VERIF_SEED"]
+        meta[key] = {p: ("failing-input" if r["rc"] == 1 and "no-failing-input-found" not in r["line"] else
                                    "obligation-broken" if r["rc"] == 1 else "MISSED") for p, r in res.items()}
         json.dump(meta, open(os.path.join(d, "meta.json"), "w"), indent=1)
-        print(sid, meta["detected_by"])
+        print(sid, meta[key])
     # evidence files were rewritten by runs on changed trees: restore them from git
     sh(["git", "-C", VERIF, "checkout", "--", "evidence"])
 if __name__ == "__main__":
